@@ -126,7 +126,9 @@ class Loop:
     The :py:class:`Loop` can also handle subclasses of :py:class:`~.Interrupt`,
     allowing to efficiently send interrupts with payloads.
     """
-    __slots__ = ('time', 'turn', 'activity', '_annotations', '_activations', '_pending')
+    __slots__ = (
+        'time', 'turn', 'activity', '_annotations', '_activations', '_pending', '_roots'
+    )
 
     def __init__(self, *coroutines: Coroutine, start: float = 0):
         self.time = start
@@ -136,6 +138,7 @@ class Loop:
         for coroutine in coroutines:
             self._activations.push(self.time, Activation(coroutine))
         self._pending = None  # type: collections.deque[Activation]
+        self._roots = coroutines
 
     def __repr__(self):
         return '<%s @ %s:%s, %d pending, %d queued>' % (
@@ -149,7 +152,17 @@ class Loop:
     def run(self):
         r"""Run the event loop in the current thread"""
         with __LOOP_STATE__.assign(self):
-            self._run_events()
+            try:
+                self._run_events()
+            finally:
+                # Activities that are still suspended when the simulation ends are
+                # unwound now, as part of it: left to the garbage collector, their
+                # clean-up would act on whatever simulation is running by then.
+                for coroutine in self._roots:
+                    try:
+                        coroutine.close()
+                    except BaseException:  # noqa: B902
+                        pass
 
     def _run_events(self):
         r"""event loop core, processing all scheduled coroutines"""
